@@ -363,8 +363,12 @@ func verifCompare(out *verifutil.Out, o *verifOpen, sigPrefix string) int {
 	fail := func(field, what string) {
 		nfail++
 		sig := sigPrefix + field
-		if o.l.class == "cand" && len(o.l.candidates) > 0 {
+		if (o.l.class == "cand" || o.l.class == "note") && len(o.l.candidates) > 0 {
 			sig = o.l.candidates[0] // every disagreement of a candidate layer carries the candidate's name
+		}
+		if o.l.class == "note" {
+			out.Count("note:" + sig + ":stores-differ") // outside the property's domain: evidence only
+			return
 		}
 		if nfail <= 6 {
 			out.Fail(sig, fmt.Sprintf("layer %s [%s]: %s", o.tag, o.l.label, what))
@@ -375,7 +379,7 @@ func verifCompare(out *verifutil.Out, o *verifOpen, sigPrefix string) int {
 		if ok && y != x.res {
 			if c := verifClassify(o.l, x, y); c == "ignore" {
 				continue
-			} else if c != "" && o.l.class != "cand" {
+			} else if c != "" && o.l.class != "cand" && o.l.class != "note" {
 				nfail++
 				out.Fail(c, fmt.Sprintf("layer %s [%s]: %s: mem=%q db=%q", o.tag, o.l.label, x.key(), x.res, y))
 				continue
@@ -587,7 +591,11 @@ func (s *verifSession) openLayer(l *verifLayer) *verifOpen {
 		if l.class == "cand" && len(l.candidates) > 0 {
 			sig = l.candidates[0] // every disagreement of a candidate layer carries the candidate's name
 		}
-		out.Fail(sig, fmt.Sprintf("layer %s [%s]: memErr=%v dbErr=%v", tag, l.label, o.memErr, o.dbErr))
+		if l.class == "note" {
+			out.Count("note:" + l.candidates[0] + ":accept-reject-differ")
+		} else {
+			out.Fail(sig, fmt.Sprintf("layer %s [%s]: memErr=%v dbErr=%v", tag, l.label, o.memErr, o.dbErr))
+		}
 	}
 	s.open[tag] = o
 	return o
@@ -597,13 +605,12 @@ func verifClassSuffix(l *verifLayer) string {
 	if l.class == "conf" {
 		return ""
 	}
-	// signatures name the root cause, not the scenario
+	// signatures name the input class, not the scenario
 	switch l.variant {
-	case "hardlink-missing", "hardlink-self", "chunk-first":
-		// a single failing entry: bolt re-runs the Batch closure and the failure is lost
-		return ":db-swallows-init-error"
-	case "hardlink-to-dir", "hardlink-to-implicit-dir", "hardlink-to-root":
-		return ":db-hardlink-to-dir"
+	case "hardlink-source-gets-children-later":
+		return ":hardlink-source-has-children"
+	case "chunk-before-reg", "chunk-after-dir":
+		return ":chunk-first"
 	}
 	if l.variant != "" {
 		return ":" + l.variant
@@ -651,7 +658,7 @@ func (s *verifSession) dumpBoth(o *verifOpen, readAll bool) {
 	if l.class == "cand" && len(l.candidates) > 0 {
 		pre = l.candidates[0] + ":"
 	}
-	if o.mem.TOCDigest() != o.db.TOCDigest() {
+	if o.mem.TOCDigest() != o.db.TOCDigest() && l.class != "note" {
 		sig := pre + "toc-digest"
 		if l.compr == "zstd" && len(l.tocStream) > l.jsonLen {
 			sig = "toc-digest-span-zstd"
@@ -799,58 +806,24 @@ func (s *verifSession) verifIsolation(why string) {
 	}
 }
 
-func TestVerifC05(t *testing.T) {
-	rnd := verifutil.NewRand(verifutil.Seed())
-	out := verifutil.OpenOut()
-	defer out.Close()
-	dir, err := os.MkdirTemp("", "verif-c05-")
-	if err != nil {
-		t.Fatal(err)
-	}
-	defer os.RemoveAll(dir)
-	n := verifutil.EnvInt("VERIF_N", 60)
+// verifRunLayers opens the layers in sessions of 1-4 (sometimes the SAME blob twice: images share
+// layers, every reader must get its own filesystem in the database), dumps both stores, and closes
+// them in random order with re-dumps of the survivors.
+func verifRunLayers(t *testing.T, rnd *verifutil.Rand, out *verifutil.Out, dir string, layers []*verifLayer) {
 	explore := os.Getenv("VERIF_EXPLORE") != ""
-
-	var layers []*verifLayer
-	layers = append(layers, verifRegressionScenarios()...)
-	bl, err := verifBuilderScenarios()
-	if err != nil {
-		t.Fatalf("builder scenarios: %v", err)
-	}
-	layers = append(layers, bl...)
-	layers = append(layers, verifCandidateScenarios()...)
-	layers = append(layers, verifNonConformingScenarios()...)
-	if os.Getenv("VERIF_ONLY_SCENARIOS") != "" {
-		n = 0
-	}
-	for i := 0; i < n; i++ {
-		compr := []string{"gzip", "zstd", "ext"}[rnd.Pick(3, 2, 1)]
-		switch rnd.Pick(9, 7, 2, 2) {
-		case 0:
-			layers = append(layers, verifGenConforming(rnd, fmt.Sprintf("gen#%d", i), compr))
-		case 1:
-			l, err := verifGenBuilder(rnd, fmt.Sprintf("build#%d", i))
-			if err != nil {
-				t.Fatalf("builder: %v", err)
-			}
-			layers = append(layers, l)
-		case 2:
-			k := verifCandKinds[rnd.Intn(len(verifCandKinds))]
-			layers = append(layers, verifGenVariant(rnd, fmt.Sprintf("cand#%d", i), compr, k))
-		default:
-			k := verifNonconfKinds[rnd.Intn(len(verifNonconfKinds))]
-			layers = append(layers, verifGenVariant(rnd, fmt.Sprintf("nonconf#%d", i), compr, k))
-		}
-	}
 	sess := 0
 	for len(layers) > 0 {
 		k := 1 + rnd.Intn(4)
 		if k > len(layers) {
 			k = len(layers)
 		}
-		batch := layers[:k]
+		batch := append([]*verifLayer{}, layers[:k]...)
 		layers = layers[k:]
 		sess++
+		if sess == 1 || rnd.Intn(3) == 0 {
+			batch = append(batch, batch[rnd.Intn(len(batch))]) // the same blob once more
+			out.Count("same-blob-twice")
+		}
 		s := verifNewSession(t, out, dir, sess)
 		var opened []*verifOpen
 		for _, l := range batch {
@@ -875,4 +848,75 @@ func TestVerifC05(t *testing.T) {
 			fmt.Printf("session %d done\n", sess)
 		}
 	}
+}
+
+// TestVerifC05 is the main pass: regression inputs of the repaired defects, spec-conforming and
+// builder-made layers, non-conforming TOCs (accept/reject agreement).
+func TestVerifC05(t *testing.T) {
+	rnd := verifutil.NewRand(verifutil.Seed())
+	out := verifutil.OpenOut()
+	defer out.Close()
+	dir, err := os.MkdirTemp("", "verif-c05-")
+	if err != nil {
+		t.Fatal(err)
+	}
+	defer os.RemoveAll(dir)
+	n := verifutil.EnvInt("VERIF_N", 60)
+
+	var layers []*verifLayer
+	layers = append(layers, verifRegressionScenarios()...)
+	layers = append(layers, verifNonConformingScenarios()...)
+	if os.Getenv("VERIF_ONLY_SCENARIOS") != "" {
+		n = 0
+	}
+	for i := 0; i < n; i++ {
+		compr := []string{"gzip", "zstd", "ext"}[rnd.Pick(3, 2, 1)]
+		switch rnd.Pick(9, 7, 3) {
+		case 0:
+			layers = append(layers, verifGenConforming(rnd, fmt.Sprintf("gen#%d", i), compr))
+		case 1:
+			l, err := verifGenBuilder(rnd, fmt.Sprintf("build#%d", i))
+			if err != nil {
+				t.Fatalf("builder: %v", err)
+			}
+			layers = append(layers, l)
+		default:
+			k := verifNonconfKinds[rnd.Intn(len(verifNonconfKinds))]
+			layers = append(layers, verifGenVariant(rnd, fmt.Sprintf("nonconf#%d", i), compr, k))
+		}
+	}
+	verifRunLayers(t, rnd, out, dir, layers)
+}
+
+// TestVerifC05Known is the separate pass over the inputs of the known findings (each disagreement
+// carries the finding's signature) and of the two input classes outside the property's domain
+// (recorded as evidence notes, never a failure).
+func TestVerifC05Known(t *testing.T) {
+	rnd := verifutil.NewRand(verifutil.Seed() + 7919)
+	out := verifutil.OpenOut()
+	defer out.Close()
+	dir, err := os.MkdirTemp("", "verif-c05k-")
+	if err != nil {
+		t.Fatal(err)
+	}
+	defer os.RemoveAll(dir)
+	n := verifutil.EnvInt("VERIF_N", 20)
+	var layers []*verifLayer
+	bl, err := verifBuilderScenarios()
+	if err != nil {
+		t.Fatalf("builder scenarios: %v", err)
+	}
+	layers = append(layers, bl...)
+	layers = append(layers, verifCandidateScenarios()...)
+	for i := 0; i < n; i++ {
+		compr := []string{"gzip", "zstd", "ext"}[rnd.Pick(3, 2, 1)]
+		if rnd.Intn(4) == 0 {
+			k := verifNoteKinds[rnd.Intn(len(verifNoteKinds))]
+			layers = append(layers, verifGenVariant(rnd, fmt.Sprintf("note#%d", i), compr, k))
+		} else {
+			k := verifCandKinds[rnd.Intn(len(verifCandKinds))]
+			layers = append(layers, verifGenVariant(rnd, fmt.Sprintf("cand#%d", i), compr, k))
+		}
+	}
+	verifRunLayers(t, rnd, out, dir, layers)
 }
